@@ -125,6 +125,9 @@ def run(ctx):
         other = [(bid, s.span, 'return sample') for bid, blk in R.blocks.items() if not blk.cleanup for s in blk.stmts if s.kind == 'assign' and s.lhs.strip() == '_0']
         ctx.guard('C15.r4', R, lambda k, t: t is ge[0][1], 'false', other, gname='sample >= difficulty_boundary')
         ctx.guard('C15.r4', R, lambda k, t: t is ge[0][1], 'true', [(subs[0][0], subs[0][1].span, 'return boundary - 1')], gname='sample >= difficulty_boundary')
+    # reviewed reference of the checker functions' decision structure (engine/census.py)
+    from rules import census_fns
+    census_fns.run(ctx, 'C15')
 
 
 def base_eq(s, operand):
